@@ -28,17 +28,17 @@ FLAGS = ["whitespace", "keepchain", "header", "pdbout", "apbs", "ffout"]
 
 
 def cases(tier, seed):
-    n, steps = (56, 8) if tier == "quick" else (800, 16)
+    n, steps = (56, 8) if tier == "quick" else (3000, 16)
     out = []
     for i in range(n):
         ff = common.FFS[i % 6]
         out.append({"kind": "walk", "w": "frag" if i % 4 == 3 else "synth", "seed": seed * 12007 + i, "ff": ff,
                     "steps": steps, "p": {"maxlen": 6, "na_prob": 0.15, "waters": [0, 2, 4], "variant_prob": 0.15}})
-    nd = 30 if tier == "quick" else 900
+    nd = 30 if tier == "quick" else 3500
     for i in range(nd):
         out.append({"kind": "dropwater", "w": "frag" if i % 3 == 0 else "synth", "seed": seed * 13001 + i,
                     "ff": common.FFS[i % 6], "p": {"maxlen": 6, "waters": [2, 4, 7], "na_prob": 0.1}})
-    nn = 36 if tier == "quick" else 1000
+    nn = 36 if tier == "quick" else 4000
     for i in range(nn):
         out.append({"kind": "neutral", "w": "synth", "seed": seed * 14009 + i, "ff": "PARSE",
                     "p": {"maxlen": 5, "waters": [0, 2], "na": False, "variant_prob": 0.1}})
